@@ -382,6 +382,35 @@ def sp_colmean(eng, node, st):
     return models.np_mean(eng, st, [eng.ev(node.args[0], st)], {'axis': vint(0)}, node)
 
 
+def sp_logdet(eng, node, st):
+    """logdet(A): ln|det A| (the uninterpreted function np.linalg.slogdet(A)[1] is modelled by)"""
+    v = eng.ev(node.args[0], st)
+    f = eng.uf('logdet_uf', z3.ArraySort(I, I, R), I, R)
+    return vreal(f(eng.arr_data(st, v), eng.arr_shape(st, v)[0]))
+
+
+def sp_is_spd(eng, node, st):
+    v = eng.ev(node.args[0], st)
+    f = eng.uf('is_spd', z3.ArraySort(I, I, R), I, B)
+    return vbool(f(eng.arr_data(st, v), eng.arr_shape(st, v)[0]))
+
+
+def sp_task_theta(eng, node, st):
+    """task_theta(t): the compressed Theta the worker of task t returns (a function of the task only)"""
+    t = eng.ev(node.args[0], st)
+    f = eng.uf('task_theta', I, z3.ArraySort(I, R))
+    return Val(('arr', 1, 'real'), None, ('valarr', [z3.Int(fresh_name('theta_len'))], f(t.t)))
+
+
+def sp_spd_task(eng, node, st):
+    """spd_compressed_task(t, eps): abbreviation -- the floored re-inflation of task t's result is SPD"""
+    t = eng.ev(node.args[0], st)
+    eps = to_real(eng.ev(node.args[1], st))
+    f = eng.uf('spec_spd_compressed', z3.ArraySort(I, R), R, B)
+    th = eng.uf('task_theta', I, z3.ArraySort(I, R))
+    return vbool(f(th(t.t), eps))
+
+
 def sp_transpose(eng, node, st):
     from . import models
     return models.transpose(eng, st, eng.ev(node.args[0], st))
@@ -397,7 +426,7 @@ def sp_cnt(eng, node, st):
     return vint(models.cnt(eng, st, a)(a, k, p))
 
 
-SPEC_BUILTINS = dict(cnt=sp_cnt, psum=sp_psum, rsum=sp_rsum, norm=sp_norm, norm2d=sp_norm2d, sqrt=sp_sqrt, matmul=sp_matmul, copyof=sp_copyof, rows_of=sp_rows_of, cov=sp_cov, colmean=sp_colmean, transpose=sp_transpose, eigh_of=sp_eigh_of, forall=sp_forall, exists=sp_exists, implies=sp_implies, ite=sp_ite, old=sp_old,
+SPEC_BUILTINS = dict(cnt=sp_cnt, psum=sp_psum, rsum=sp_rsum, norm=sp_norm, norm2d=sp_norm2d, sqrt=sp_sqrt, matmul=sp_matmul, task_theta=sp_task_theta, spd_compressed_task=sp_spd_task, logdet=sp_logdet, is_spd=sp_is_spd, copyof=sp_copyof, rows_of=sp_rows_of, cov=sp_cov, colmean=sp_colmean, transpose=sp_transpose, eigh_of=sp_eigh_of, forall=sp_forall, exists=sp_exists, implies=sp_implies, ite=sp_ite, old=sp_old,
                      fresh=sp_fresh, allocated=sp_allocated, in_set=sp_in_set, same=sp_same, unchanged=sp_unchanged, isnone=sp_isnone, real=sp_real,
                      eqcontent=sp_eqcontent, let=sp_let, alloc_now=sp_alloc)
 
@@ -524,6 +553,9 @@ def call_funcval(eng, fv, args, kwargs, st, node):
 
 def call_method(eng, base, name, args, kwargs, st, node):
     k = base.k
+    if isinstance(k, tuple) and k[0] == 'obj' and k[1] == 'AsyncTask' and name == 'get':
+        from . import models
+        return models.task_get(eng, st, base, node)
     if isinstance(k, tuple) and k[0] == 'obj':
         sch = S.CLASSES.get(k[1])
         if sch is None:
@@ -830,6 +862,10 @@ def apply_contract(eng, c, mod, fdef, args, kwargs, st, node):
     result = fresh_of_kind(eng, st, c.returns, 'res_' + short) if c.returns is not None else NONE
     env2 = dict(env)
     env2['result'] = result
+    # the callee's own ghost flags, seen from a normal return of the callee
+    env2.setdefault('_any_task_failed', vbool(False))
+    for gn in ('_pool_created', '_pool_closed', '_pool_joined'):
+        env2.setdefault(gn, vbool(z3.Bool(fresh_name(gn))))
     for gname, gk in (c.ghost.get('return_kinds') or {}).items():
         env2[gname] = fresh_of_kind(eng, st, parse_kind(gk), 'ghost_' + gname)
         # ghost out-parameters of the callee are visible to the caller's contract clauses as ghost_<callee>_<name>
